@@ -434,6 +434,30 @@ Definition fl_resolve_acts (dflt : option (option fl_act)) (src : list fl_sact) 
                else own ++ match da with Some a => [a] | None => [] end
   end.
 
+(* parseActions / appendRuleAction: an action list naming several disruptive actions (block included)
+   keeps ONE: the last one, with its own parameter, in the slot of the first one *)
+Definition fl_sact_is_dis (x : fl_sact) : bool :=
+  fl_sact_is_da x || match x with SBlock => true | _ => false end.
+
+Fixpoint fl_last_dis (src : list fl_sact) : option fl_sact :=
+  match src with
+  | [] => None
+  | x :: t => match fl_last_dis t with
+              | Some d => Some d
+              | None => if fl_sact_is_dis x then Some x else None
+              end
+  end.
+
+Fixpoint fl_place_dis (d : fl_sact) (src : list fl_sact) : list fl_sact :=
+  match src with
+  | [] => []
+  | x :: t => if fl_sact_is_dis x then d :: filter (fun y => negb (fl_sact_is_dis y)) t
+              else x :: fl_place_dis d t
+  end.
+
+Definition fl_collapse (src : list fl_sact) : list fl_sact :=
+  match fl_last_dis src with Some d => fl_place_dis d src | None => src end.
+
 Inductive fl_directive :=
   | DRule (r : fl_rule) (sacts : list fl_sact)    (* SecRule / SecAction (chain attached) / SecMarker; r_acts r is ignored *)
   | DDefault (p : nat) (da : option fl_act)       (* SecDefaultAction "phase:p,<pass|deny|allow..>" *)
@@ -468,7 +492,8 @@ Fixpoint fl_configure_from (defs : list (nat * option fl_act)) (acc : list fl_ru
   match ds with
   | [] => acc
   | DRule r sa :: t =>
-      fl_configure_from defs (acc ++ [fl_set_acts r (fl_resolve_acts (fl_find_default defs (r_phase r)) sa)]) t
+      fl_configure_from defs
+        (acc ++ [fl_set_acts r (fl_resolve_acts (fl_find_default defs (r_phase r)) (fl_collapse sa))]) t
   | DDefault p da :: t => fl_configure_from (defs ++ [(p, da)]) acc t
   | DRemove l :: t => fl_configure_from defs (fold_left fl_delete l acc) t
   end.
